@@ -118,8 +118,8 @@ def obligations(tier, seed=0):
         for sign in (0, 1):
             for prec in (5, 24):
                 for k in (-2, -1, 0, 1):
-                    obs.append((FE + 'exp_near_one', dict(prec=prec, k=k, bc=3, sign=sign, rnd=rnd)))
-                obs.append((FE + 'exp_near_one', dict(prec=prec, k=0, bc=1, sign=sign, rnd=rnd)))
+                    obs.append((FE + 'near_point', dict(fn='exp', prec=prec, rnd=rnd, sign=sign, bc=3, mag=-(prec + 14) + k)))
+                obs.append((FE + 'near_point', dict(fn='exp', prec=prec, rnd=rnd, sign=sign, bc=1, mag=-(prec + 14))))
             for fn in ('exp', 'atan', 'sin', 'cos', 'tan'):
                 obs.append((FE + 'near_point', dict(fn=fn, prec=6, rnd=rnd, sign=sign, bc=3)))
                 obs.append((FE + 'near_point', dict(fn=fn, prec=4, rnd=rnd, sign=sign, bc=7)))      # argument longer than prec
